@@ -156,7 +156,7 @@ func (b *batch) Commit(ctx context.Context) error {
 			b.store.skl.Remove(keyBytes)
 		} else {
 			if v.ttl != 0 {
-				b.asyncRemove(keyBytes, v.ttl)
+				b.asyncRemove(keyBytes, v.val, v.ttl)
 			}
 			b.store.skl.Set(keyBytes, v.val)
 		}
@@ -166,14 +166,23 @@ func (b *batch) Commit(ctx context.Context) error {
 	return nil
 }
 
-func (b *batch) asyncRemove(key []byte, seconds int64) {
+func (b *batch) asyncRemove(key []byte, val []byte, seconds int64) {
 	if seconds == 0 {
 		return
 	}
 
 	go func(kvStorage storage.KvStorage) {
 		time.AfterFunc(time.Duration(seconds)*time.Second, func() {
-			_ = b.store.del(key)
+			// the ttl belongs to the value it was written with: a later write has its own ttl (or none)
+			_ = b.store.delIfEqual(key, val)
 		})
 	}(b.store)
+}
+
+func (s *store) delIfEqual(key []byte, val []byte) error {
+	b := s.BeginBatchWrite().(*batch)
+	if bytes.Equal(b.get(key), val) {
+		b.Del(key)
+	}
+	return b.Commit(context.Background())
 }
